@@ -337,13 +337,18 @@ def _rebind(ctx, d, pgpy):
     from pgpy.constants import KeyFlags, CompressionAlgorithm
     t0 = datetime(2021, 1, 1, tzinfo=timezone.utc)
     msg = pgpy.PGPMessage.new('rebind', compression=CompressionAlgorithm.Uncompressed)
-    for first, second in ((['Sign'], ['Authentication']), (['Authentication'], ['Sign']), (['EncryptCommunications'], ['Authentication']), (['Authentication'], ['EncryptStorage'])):
+    for first, second in ((['Sign'], ['Authentication']), (['Authentication'], ['Sign']), (['EncryptCommunications'], ['Authentication']), (['Authentication'], ['EncryptStorage']),
+                          (['Sign'], []), (['EncryptCommunications'], []), (['Sign', 'EncryptCommunications'], []), (['Sign'], None), (['EncryptCommunications', 'Sign'], None),
+                          ([], ['Sign']), (None, ['EncryptStorage'])):
         subn = 'rsa1024_1'
         k = pool.pgpy_bare('ed25519_0')
         k.add_uid(pgpy.PGPUID.new('Rebind'), usage={KeyFlags.Certify})
         sk = pool.pgpy_bare(subn)
-        k.add_subkey(sk, usage={getattr(KeyFlags, f) for f in first}, created=t0)
-        sk |= k.bind(sk, usage={getattr(KeyFlags, f) for f in second}, created=t0 + timedelta(days=30))
+        # usage None = a binding signature without any key-flags subpacket; [] = an empty flag set
+        kw1 = {'usage': {getattr(KeyFlags, f) for f in first}} if first is not None else {}
+        kw2 = {'usage': {getattr(KeyFlags, f) for f in second}} if second is not None else {}
+        k.add_subkey(sk, created=t0, **kw1)
+        sk |= k.bind(sk, created=t0 + timedelta(days=30), **kw2)
         for reimport in (False, True):
             kk = pgpy.PGPKey.from_blob(bytes(k))[0] if reimport else k
             for op in ('sign', 'encrypt'):
